@@ -339,7 +339,8 @@ pub fn c05_base256_lengths(seed: u64, max_payload: u64) -> Phase {
 /// with the pixels of a genuine rendering of the catalogue size re-framed.
 pub fn dimension_aliases(prop: &'static str, seed: u64) -> Phase {
     // (size, variant) -> (len, width)
-    const NVAR: u64 = 34;
+    const RADICES: [usize; 10] = [10, 100, 144, 145, 150, 200, 256, 1000, 1024, 65536];
+    const NVAR: u64 = 34 + 4 * RADICES.len() as u64;
     let total = N_SIZES as u64 * NVAR * 4;
     let make = move |_ctx: &Ctx, i: u64| -> Trace {
         let fill = i % 4;
@@ -389,7 +390,20 @@ pub fn dimension_aliases(prop: &'static str, seed: u64) -> Phase {
             30 => (n + h, w),
             31 => (n + 2 * h, w),
             32 => (n + h * (w / h).max(1), w),
-            _ => (n - h, w),
+            33 => (n - h, w),
+            // carry / borrow between the two dimensions when they are packed into one key h * R + w or w * R + h:
+            // (h - k, w + k R) and (h + k R, w - k) collide with (h, w) for such a key - tall narrow and flat wide arrays
+            _ => {
+                let q = (var - 34) as usize;
+                let radix = RADICES[q / 4];
+                let k = 1 + (q % 4) / 2;
+                let (hh, ww) = if q % 2 == 0 { (h - k, w + k * radix) } else { (h + k * radix, w - k) };
+                if hh * ww > 3_000_000 {
+                    (n, w + 1)
+                } else {
+                    (hh * ww, ww)
+                }
+            }
         };
         let mut faults = Vec::new();
         let producer;
@@ -1130,6 +1144,165 @@ pub fn extreme_widths(prop: &'static str) -> Phase {
     };
     Phase {
         source: Source::Sweep { name: "sweep_extreme_widths".into(), prop: prop.into(), make: Box::new(make) },
+        runs: total,
+        wall_cap_s: 0,
+    }
+}
+
+/// Every two-byte charset designator (ECI 127..16382) x every byte value (below 128 as an ASCII codeword, above as
+/// an upper-shifted one), through decode_data and decode_str; `nbytes` < 256 restricts the byte values to a
+/// boundary set. Charset tables are keyed by the designator's NUMBER; this leaves no number untried.
+pub fn c05_eci_two_byte_designators(all_bytes: bool) -> Phase {
+    const B: [u8; 16] = [0x00, 0x1F, 0x20, 0x41, 0x7E, 0x7F, 0x80, 0x81, 0x9F, 0xA0, 0xA1, 0xBF, 0xC0, 0xE0, 0xFE, 0xFF];
+    let nb: u64 = if all_bytes { 256 } else { B.len() as u64 };
+    let n_eci: u64 = 16382 - 127 + 1;
+    let total = n_eci * nb;
+    let make = move |_ctx: &Ctx, i: u64| -> Trace {
+        let c = (i / nb) as usize; // eci - 127
+        let byte = if all_bytes { (i % nb) as u8 } else { B[(i % nb) as usize] };
+        let mut data: Vec<u8> = vec![241, (c / 254 + 128) as u8, (c % 254 + 1) as u8];
+        if byte < 128 {
+            data.push(byte + 1);
+        } else {
+            data.push(235);
+            data.push(byte - 127);
+        }
+        Trace { prop: "C05".into(), producer: Producer::Stream { data }, faults: vec![] }
+    };
+    Phase {
+        source: Source::Sweep { name: format!("sweep_every_two_byte_eci_x_{}_bytes", nb), prop: "C05".into(), make: Box::new(make) },
+        runs: total,
+        wall_cap_s: 0,
+    }
+}
+
+/// Three-byte designators (ECI 16383..999999): every number (or every 61st, jittered) with four byte values.
+pub fn c05_eci_three_byte_designators(all: bool) -> Phase {
+    const B: [u8; 4] = [0x41, 0x80, 0xA0, 0xFF];
+    let n_eci: u64 = 999_999 - 16_383 + 1;
+    let picks: u64 = if all { n_eci } else { n_eci / 61 + 1 };
+    let total = picks * B.len() as u64;
+    let make = move |_ctx: &Ctx, i: u64| -> Trace {
+        let byte = B[(i % 4) as usize];
+        let q = i / 4;
+        let c = if all { q } else { (q * 61 + (q % 7)).min(n_eci - 1) } as usize; // eci - 16383
+        let mut data: Vec<u8> = vec![241, (c / 64516 + 192) as u8, ((c / 254) % 254 + 1) as u8, (c % 254 + 1) as u8];
+        if byte < 128 {
+            data.push(byte + 1);
+        } else {
+            data.push(235);
+            data.push(byte - 127);
+        }
+        Trace { prop: "C05".into(), producer: Producer::Stream { data }, faults: vec![] }
+    };
+    Phase {
+        source: Source::Sweep { name: format!("sweep_three_byte_eci_{}_numbers_x_4_bytes", picks), prop: "C05".into(), make: Box::new(make) },
+        runs: total,
+        wall_cap_s: 0,
+    }
+}
+
+/// Data lines that imitate the fixed pattern, enumerated: for every size and both orientations, the last data line
+/// before and the first after every interior region boundary painted with every pair of the four patterns (dark,
+/// light, clock phase, other phase), and the data line next to each outer edge with each pattern - kept only when
+/// the damage stays within the correction radius (three data vectors are tried). Whole pipeline, pixel stage.
+pub fn c03_mimic_boundaries(seed: u64) -> Phase {
+    let per = |s: usize| -> u64 {
+        let z = &SIZES[s];
+        ((z.reg_rows - 1) + (z.reg_cols - 1)) as u64 * 16 + 16
+    };
+    let prefix = prefix_of(per);
+    let total = prefix[N_SIZES];
+    let make = move |ctx: &Ctx, i: u64| -> Trace {
+        let (si, r) = locate(&prefix, i);
+        let s = &SIZES[si];
+        let nh = (s.reg_rows - 1) as u64;
+        let nv = (s.reg_cols - 1) as u64;
+        let (horizontal, lines): (bool, Vec<(usize, u8)>) = if r < (nh + nv) * 16 {
+            let b = r / 16;
+            let pa = ((r % 16) / 4) as u8;
+            let pb = (r % 4) as u8;
+            let horizontal = b < nh;
+            let g = if horizontal { b } else { b - nh } as usize;
+            let (_, pairs) = crate::gen::data_lines(s, horizontal);
+            (horizontal, vec![(pairs[g].0, pa), (pairs[g].1, pb)])
+        } else {
+            let q = r - (nh + nv) * 16;
+            let edge = q / 4;
+            let pat = (q % 4) as u8;
+            let horizontal = edge < 2;
+            let (lines, _) = crate::gen::data_lines(s, horizontal);
+            let l = if edge % 2 == 0 { lines[0] } else { lines[lines.len() - 1] };
+            (horizontal, vec![(l, pat)])
+        };
+        for variant in [0u64, 4, 8, 2, 1] {
+            let data = seeded_data(seed, si, variant);
+            let size = s.size;
+            let d = data.clone();
+            if let Ok(ec) = crate::exec::guard(move || datamatrix::errorcode::encode_error(&d, size)) {
+                let mut all = data.clone();
+                all.extend_from_slice(&ec);
+                let mut faults = Vec::new();
+                if crate::gen::mimic_line_faults(ctx, s, &all, horizontal, &lines, &mut faults) {
+                    return Trace { prop: "C03".into(), producer: Producer::Raw { size: si, data }, faults };
+                }
+            }
+        }
+        Trace { prop: "C03".into(), producer: Producer::Raw { size: si, data: seeded_data(seed, si, 0) }, faults: vec![] }
+    };
+    Phase {
+        source: Source::Sweep { name: "sweep_data_lines_imitating_fixed_pattern".into(), prop: "C03".into(), make: Box::new(make) },
+        runs: total,
+        wall_cap_s: 0,
+    }
+}
+
+fn pad253(pos1: usize) -> u8 {
+    let pr = ((149 * pos1) % 253) + 1;
+    let t = 129 + pr;
+    if t <= 254 { t as u8 } else { (t - 254) as u8 }
+}
+
+/// Padding structures carried by VALID symbols (correct error correction, correct fixed pattern) of every size,
+/// through the whole pipeline: a prefix of 0..3 ordinary codewords followed by (0) the regular pad run - plain 129
+/// then randomised pads, (1) randomised pads only, the first one included, (2) plain 129 throughout, (3) pads
+/// randomised for the neighbouring position, (4) a regular pad run with one ordinary codeword after it,
+/// (5) a regular pad run whose LAST codeword is a plain 129, (6) a latch as the last codeword before the pads,
+/// (7) randomised pads from position 1 on, nothing else (no prefix is applied).
+pub fn c05_pad_structures() -> Phase {
+    const NV: u64 = 8;
+    let per_size = 4 * NV;
+    let total = N_SIZES as u64 * per_size;
+    let make = move |_ctx: &Ctx, i: u64| -> Trace {
+        let si = (i / per_size) as usize;
+        let r = i % per_size;
+        let variant = r % NV;
+        let plen = (r / NV) as usize;
+        let s = &SIZES[si];
+        let n = s.n_data;
+        let plen = if variant == 7 { 0 } else { plen.min(n.saturating_sub(1)) };
+        let mut data: Vec<u8> = (0..plen).map(|j| b'A' + 1 + j as u8).collect();
+        if variant == 6 && !data.is_empty() {
+            let l = data.len() - 1;
+            data[l] = 230;
+        }
+        let start = data.len();
+        for p in start..n {
+            let pos1 = p + 1;
+            let v = match variant {
+                0 | 6 => if p == start { 129 } else { pad253(pos1) },
+                1 | 7 => pad253(pos1),
+                2 => 129,
+                3 => if p == start { 129 } else { pad253(pos1 + 1) },
+                4 => if p == start { 129 } else if p == n - 1 { b'Z' + 1 } else { pad253(pos1) },
+                _ => if p == start || p == n - 1 { 129 } else { pad253(pos1) },
+            };
+            data.push(v);
+        }
+        Trace { prop: "C05".into(), producer: Producer::Raw { size: si, data }, faults: vec![] }
+    };
+    Phase {
+        source: Source::Sweep { name: "sweep_pad_structures_in_valid_symbols".into(), prop: "C05".into(), make: Box::new(make) },
         runs: total,
         wall_cap_s: 0,
     }
